@@ -22,7 +22,7 @@ for l in open(os.path.join(root, 'verify2.log')):
     if m: verify[m.group(1)] = m.group(2).strip()
 rows = []
 for d in sorted(os.listdir(root)):
-    if not re.match(r'C\d+-m[34]$', d): continue
+    if not re.match(r'C\d+-m[3-6]$', d): continue
     p = os.path.join(root, d)
     pid = d.split('-')[0]
     readme = open(os.path.join(p, 'README.txt'), errors='replace').read() if os.path.exists(os.path.join(p, 'README.txt')) else ''
